@@ -98,6 +98,19 @@ TWINS = [
     ('T11', P + 'similarity.py', 'def squash', 'Xz = 1 / (1 + np.power(base, -(0 - x0) / r))', 'Xz = 1 / (1 + np.power(base, x0 / r))', ['C19']),
     ('T12', P + 'dp.py', 'def dp(', 'last_under_max_dist == -1 and c > 0:', 'last_under_max_dist == -1 and c >= 1:', ['C17']),
     ('T13', P + 'subsequence/localconcurrences.py', 'def kbest_matches(self', 'wp[xx, yy] = -abs(wp[xx, yy])  # ma.masked\n                        yy = y + 1', 'wp[xx, yy] = -np.abs(wp[xx, yy])\n                        yy = y + 1', ['C18']),
+    ('T14', P + 'dtw_cc.pyx', 'def best_path_compact(', '        for i in range(path_length):\n            path.append((i1[i], i2[i]))', '        for k in range(path_length):\n            path.append((i1[k], i2[k]))', ['C05']),
+    ('T15', P + 'subsequence/subsequencesearch.py', 'class SSMatches', 'elif self.k is None or self.k > self.ss.k:', 'elif self.k is None or self.ss.k < self.k:', ['C14']),
+    ('T16', P + 'clustering/kmeans.py', 'def _distance_ndim_with_params', '    series, avgs, dists_options = t\n    min_i, min_d = -1, float(\'inf\')\n    for i, avg in enumerate(avgs):\n        d = dtw_ndim.distance(series, avg, **dists_options)', '    series, avgs, opts = t\n    min_i, min_d = -1, float(\'inf\')\n    for i, avg in enumerate(avgs):\n        d = dtw_ndim.distance(series, avg, **opts)', ['C16']),
+    ('T17', P + 'util.py', 'def c_data_compat', '                        serie = np.asarray(serie, order="C")\n                        self.series[i] = serie', '                        self.series[i] = np.asarray(serie, order="C")', ['C20', 'C02']),
+    ('T18', P + 'dtw.py', 'def _distance_matrix_idxs', 'idxs = (np.array(idxsl_r), np.array(idxsl_c))', 'idxs = (np.asarray(idxsl_r), np.asarray(idxsl_c))', ['C06']),
+    ('T19', P + 'dtw.py', 'def set_max_dist', 'self.adj_max_dist = ival_fn(ub_euclidean(s1, s2, inner_dist=self.inner_dist, use_ndim=self.use_ndim))', 'ub = ub_euclidean(s1, s2, inner_dist=self.inner_dist, use_ndim=self.use_ndim)\n            self.adj_max_dist = ival_fn(ub)', ['C03', 'C01', 'C02', 'C09']),
+    ('T20', P + 'dtw.py', 'def _distance_c_with_params(t)', 'return dtw_cc.distance(t[0], t[1], **t[2])', 'd = dtw_cc.distance(t[0], t[1], **t[2])\n    return d', ['C07']),
+    ('T21', P + 'alignment.py', 'def needleman_wunsch', "gap = getattr(substitution, 'gap', 1)", "gap = getattr(substitution, 'gap', 1)  # gap cost of the substitution function", ['C17']),
+    ('T22', C + 'dd_dtw.c', 'DTWWps dtw_wps_parts', '        if (settings->inner_dist == 0) {\n            parts.max_dist = pow(parts.max_dist, 2);\n        }', '        if (settings->inner_dist != 1) {\n            parts.max_dist = pow(parts.max_dist, 2);\n        }', ['C03', 'C04']),
+    ('T23', P + 'similarity.py', 'def distance_to_similarity', 'r = np.min(D) + np.max(D)', 'r = np.max(D) + np.min(D)', ['C19']),
+    ('T24', P + 'subsequence/subsequencealignment.py', 'def _best_matches', '(maxlength is not None and e-b+1 > maxlength)):', '(maxlength is not None and e-b >= maxlength)):', ['C13']),
+    ('T25', P + 'dtw.py', 'def warping_paths_fast', '    s2 = util_numpy.verify_np_array(s2)\n    r = len(s1)\n    c = len(s2)\n    _check_library(raise_exception=True)\n    settings = DTWSettings.for_dtw(s1, s2, **kwargs)\n    if compact:\n', '    r = len(s1)\n    c = len(s2)\n    _check_library(raise_exception=True)\n    settings = DTWSettings.for_dtw(s1, s2, **kwargs)\n    if compact:\n        s2 = util_numpy.verify_np_array(s2)\n    else:\n        s2 = util_numpy.verify_np_array(s2)\n    if compact:\n', ['C20', 'C13']),
+    ('T26', C + 'dd_ed.c', 'seq_t euclidean_distance_ndim(', '            ub += d;\n        }\n    }\n    ub = sqrt(ub);', '            ub = ub + d;\n        }\n    }\n    ub = sqrt(ub);', ['C09', 'C11', 'C02']),
     ('T8', P + 'clustering/hierarchical.py', 'def fit(self, series):', "        logger.debug('Merging patterns')\n", "        logger.debug('Merging the patterns')\n\n", ['C15']),
 ]
 
